@@ -224,6 +224,9 @@ pub fn damage_castling_specific(m: &Model, shredder: bool, which: &str) -> Optio
                 if !fits {
                     continue;
                 }
+                if !shredder && rank_of(k) == back && own_rook_on_wing(m, c, k, w) {
+                    continue; // an X-FEN reader may bind K/Q to another own rook on that wing
+                }
                 let mut d = m.clone();
                 d.rights[c as usize][w] = Some(f);
                 if all_in(&d.defects(), Aspect::Castling) {
@@ -252,8 +255,8 @@ pub fn damage_castling_enemy_rook(m: &Model, shredder: bool) -> Option<Model> {
                 if !right_wing || m.sq[mk(f as i8, back).unwrap() as usize] != Some((ROOK, c ^ 1)) {
                     continue;
                 }
-                if !shredder && f != (if w == 0 { 7 } else { 0 }) {
-                    continue;
+                if !shredder && (f != (if w == 0 { 7 } else { 0 }) || own_rook_on_wing(m, c, k, w)) {
+                    continue; // (an X-FEN reader may bind K/Q to another own rook on that wing)
                 }
                 let mut d = m.clone();
                 d.rights[c as usize][w] = Some(f);
@@ -264,6 +267,12 @@ pub fn damage_castling_enemy_rook(m: &Model, shredder: bool) -> Option<Model> {
         }
     }
     None
+}
+
+/// Is there any own rook on the back rank on that wing of the king?
+fn own_rook_on_wing(m: &Model, c: u8, k: u8, w: usize) -> bool {
+    let back = if c == WHITE { 0 } else { 7 };
+    (0..8i8).any(|g| (if w == 0 { g > file_of(k) } else { g < file_of(k) }) && m.sq[mk(g, back).unwrap() as usize] == Some((ROOK, c)))
 }
 
 /// Well-formed EP squares on the mover's EP rank that the position does not support.
